@@ -39,7 +39,7 @@ Round 3:
   selected_expression / get_children / get_status_id_manager`);
 * a formula used alone and as a part of bigger formulas, in any order (`Expression.set_central_controller`): every formula
   always reports the configurations of its own catalogs (model: `central` of the formula alone, theorem embedded_formula;
-  known finding FC16f on the unchanged tree);
+  finding FC16f, repaired in /repo by 33b805d);
 * several formulas written with the same catalog objects (each its own CentralController, shared publicly mutable
   Controller objects): interleaved selections (the same configuration asked again), select_expression, operators, direct
   set_index / set_name / modify_controller / reset_selection, reads; observed without touching any CentralController
@@ -101,7 +101,7 @@ MANIFEST = dict(
     'alternatives the controllers already show.',
     design='DESIGN.md §5 C16',
     technique='Lean 4 theorems over an executable state-machine model + differential correspondence with the real catalog machinery and the real engine',
-    note='Known finding FC16f (open): Expression.set_central_controller hands the central controller of an enclosing formula to the formulas it contains, '
+    note='Finding FC16f (found by this check, repaired in /repo by 33b805d): Expression.set_central_controller hands the central controller of an enclosing formula to the formulas it contains, '
     'so a formula used alone after (or before) being used inside a bigger one reports the configurations of the bigger one; the model is the repaired '
     'behaviour (proposed_fixes/FC16f.diff). Three input-validation defects were listed as known findings (FC16a/b/c: same-named controllers merged, reserved separators and duplicate '
     'specification names accepted; fixed in /repo since); the model is the repaired behaviour (refusal). The state reached when an operation raises is '
@@ -117,7 +117,7 @@ TRUSTED = [
     'set/dict iteration order of CPython is irrelevant: sets are compared as sorted lists',
 ]
 ASSUMPTIONS = [
-    'a formula object is asked about its catalogs either on its own or through bigger formulas containing it, not both (otherwise known finding FC16f '
+    'a formula object is asked about its catalogs either on its own or through bigger formulas containing it, not both (otherwise finding FC16f, repaired by 33b805d, '
     'applies on the unchanged tree: the model describes the repaired code)',
     'controller and specification names contain no ";" or ":" and are distinct inside one controller; controllers are identified by their name '
     '(guards SelOK / SpaceWF of the theorems; the code does not enforce them: known findings FC16a/b/c)',
